@@ -23,8 +23,14 @@ CHECKS = {
          "refproto shares no code with /repo and was written from docs/protocol.md only; loss-free link for the UDP reference peers"),
  "C10": ("exploration", "§3 C10", "A hostile peer with a valid credential emits reference-encoded segments with arbitrary types, session ids (incl. other users' established sessions), sequence/ack/window/length/low-entropy fields on both transports, mixed with the unauthenticated corpus, while another user's sessions run. Oracle: the worker process survives (panic/fatal = violation with the first mieru frame as signature) and the victim's stream oracle holds.",
          "one OS process per run makes a crash observable and attributable to a seed; hostile servers against real clients are not simulated"),
+ "C18": ("exploration", "§3 C18", "UDP associations through the production server stack over a re-chunked TCP carrier or a lossy UDP carrier: datagrams of size 0..65507 full of marker bytes to several IPv4/IPv6/domain destinations that echo; malformed frames and undersized buffers injected. Oracle: per destination the received sequence equals the sent one, every datagram arrives where its header says, every echo names the replying host and carries the same bytes, errors - never garbage - after a framing violation.",
+         "loss-free, order-preserving egress UDP in the simulation; truncated frames are generated only as the last write of an association (they cannot be told apart otherwise)"),
  "C19": ("exploration", "§3 C19", "Counter operation histories (adds in bursts, sleeps from 1 us to 30 days across every roll-up age, loads, windows, dump/restart/load with intact and torn files) against a list-of-increments model under the virtual clock; and whole-system quota runs where a user crosses its allowance and then opens new sessions next to other users: per-user counters equal what the server application read/wrote, over-quota sessions are refused with the quota status and never reach Server.Accept, everyone else is served.",
          "loose reading of the allowance around the threshold; real temporary file for the dump"),
+ "C11": ("fault_enumeration", "§3 C11", "SOCKS5 negotiations against the real front end over a simulated connection: every method list of length <= 3 (4 in the thorough tier) over {0x00,0x01,0x02,0x80,0xFF} x credential configuration x placement x sub-negotiation variant is enumerated; random long lists, blind pipelining, truncation at every byte, stalls past the handshake timeout and tiny write chunks are sampled. Oracle: the request is served iff a configured pair was presented (or none is configured and no-auth was offered).",
+         "'served' is observed at ProxyDialer.DialContext (client placement) or at the proxy server's dial through vnet (server placement)"),
+ "C12": ("exploration", "§3 C12", "The production server stack (Mux + socks5.Server) runs against a simulated OS network that interprets and records every dial target and datagram destination as an OS would; users with and without the loopback/private grants send CONNECT / UDP-ASSOCIATE requests and per-datagram headers drawn from an enumerated table of destination encodings, under random egress rule lists. Oracle: reply 0x02 and nothing reaches a loopback/private host without the grant; granted and public traffic is served; first matching rule wins.",
+         "the stub OS semantics (empty host / unspecified address reach the local machine; case-insensitive hosts table) are the stated assumption of this check"),
  "C13": ("exploration", "§3 C13", "Wire-tap invariants evaluated on every datagram of C02/C03-style runs with the independent reference decoder: cumulative ack <= in-order prefix delivered to the acker; retransmissions identical in type/fragment/payload; first transmissions gapless from 0.",
          "refproto (written from docs/protocol.md) is the trusted base; simnet delivery events are ground truth for 'received'"),
  "C14": ("exploration", "§3 C14", "Wire-tap invariants on every datagram/segment of runs sweeping MTU x padding x low-entropy mode x write sizes x fault profiles (retransmissions, acks, control segments): datagram <= sender MTU, documented length limits.",
